@@ -131,6 +131,20 @@ def cli_cases():
         ("recurse-limit-closure", ["-n", "-c", "[limit(3; 1 | recurse(. + input))]"], "10 20 }", "[1,11,31]\n", 0),
         ("repeat-input-limit", ["-n", "-c", "[limit(2; repeat(input))]"], "1 2 ]", "[1,2]\n", 0),
         ("math-left-outer", ["-n", "first((input, error) + 1), input"], "1 2", "2\n2\n", 0),
+        # path mode (`path(..)` runs the separate paths evaluator: the same laziness is demanded of it)
+        ("path-first-comma-right-untouched", ["-n", "-c", "path(first(.a, (input as $x | .b))), input"], "1 2 3", '["a"]\n1\n', 0),
+        ("path-limit-nontail-recursion", ["-n", "-c", "[limit(3; path(def f: ., (f | .a); f))]"], "", '[[],["a"],["a","a"]]\n', 0),
+        ("path-limit-before-error", ["-n", "-c", "path(limit(1; (.a, error)))"], "", '["a"]\n', 0),
+        ("path-first-before-divergence", ["-n", "-c", "def g: g; first(path(.a, g))"], "", '["a"]\n', 0),
+        ("path-limit-recurse", ["-c", "[limit(2; path(..))]"], '{"a":{"b":1}}', '[[],["a"]]\n', 0),
+        ("path-if-then-comma", ["-n", "-c", "path(first(if input then .a else .b end, .c)), input"], "1 2", '["a"]\n2\n', 0),
+        ("path-pipe-right-comma", ["-n", "-c", "first(path(.a | (., (input|error)))), input"], "1 2", '["a"]\n1\n', 0),
+        ("path-label-break-divergence", ["-n", "-c", "path(label $l | (.a, break $l, (def g: g; g)))"], "", '["a"]\n', 0),
+        ("path-isempty-before-error", ["-n", "-c", "isempty(path(.a, error))"], "", "false\n", 0),
+        ("path-binding-body-comma", ["-n", "-c", "path(first(.a as $x | (.b, (input | .c)))), input"], "1 2", '["b"]\n1\n', 0),
+        ("path-limit-inputs-rest", ["-n", "-c", "path(limit(1; .a, (inputs | error))), input"], "1 2", '["a"]\n1\n', 0),
+        ("path-comma-input-right", ["-n", "-c", "first(path(.a, (input | .b))), input"], "1 2", '["a"]\n1\n', 0),
+        ("path-alt-then-comma", ["-n", "-c", "path(first(.a // .b, (input|.c))), input"], "1 2", '["b"]\n1\n', 0),
     ]
 
 
